@@ -15,9 +15,13 @@
 (* Fix: "report"   - F reports a failed handshake: stores the exception and sets the      *)
 (*                   event; _start re-raises it (proposed_fixes/C20_*.diff)               *)
 (*      "srvclose" - the server closes the client socket when the context id is unknown   *)
+(* LateClose = TRUE: the backend closes its inherited copy of the server's end of the      *)
+(* start-up pipe only after the go-ahead (must be rejected: a server that dies between     *)
+(* "backend started" and "go-ahead sent" then leaves an orphan blocked in recv() that      *)
+(* keeps the client's sockets open - the constructor never returns).                       *)
 EXTENDS Naturals, Sequences, FiniteSets, TLC, ClientStartProps
 
-CONSTANTS Fix, Scenarios
+CONSTANTS Fix, Scenarios, LateClose
 
 VARIABLES scn,      \* [kind, step, how]
           ppc,      \* constructor: "connect" "startF" "wait" | "spawn" "waitc" | "returned" "raised"
@@ -30,20 +34,25 @@ VARIABLES scn,      \* [kind, step, how]
           ctrl,     \* control connection: "none" "open" "fin" "rst"
           info,     \* runtime-info frame at the client: "none" "part" "full"
           gotInfo,  \* F has read a complete runtime-info frame
-          bk,       \* server's backend child: "none" "alive" "gone"
+          bk,       \* server's backend child (_run_backend): "none" "boot" (interpreter starting, worker not yet unpickled)
+                    \* "main" (control thread started; re-running the main script) "waitgo" (runtime info sent on the
+                    \* start-up pipe, blocked in child_end.recv() for the go-ahead) "run" "gone"
+          bkp,      \* the backend still holds ITS OWN copy of the server's end of the start-up pipe
+          go,       \* the server has sent the go-ahead
           ch        \* process kind: the child: "none" "starting" "reported" "exited"
-vars == <<scn, ppc, fpc, evt, err, sv, sent, dconn, addr, ctrl, info, gotInfo, bk, ch>>
+vars == <<scn, ppc, fpc, evt, err, sv, sent, dconn, addr, ctrl, info, gotInfo, bk, bkp, go, ch>>
 
 St  == scn.step        \* "healthy" "refuse_data" "unknown_ctx" "hdr" "self" "addr0" "addrM" "addrL" "conn" "info0" "infoM" "infoL"
-                       \* "kill_hdr" "kill_self" "kill_addr" "kill_spawn" | process kind: "healthy" "exit_early"
+                       \* "kill_hdr" "kill_self" "kill_addr" "kill_spawn" "kill_window" | process kind: "healthy" "exit_early"
 Ends == {"fin", "rst"}
 Hows == IF scn.how \in Ends THEN {scn.how} ELSE Ends      \* a killed server's sockets end with FIN or RST (kernel's choice)
-IsKill == St \in {"kill_hdr", "kill_self", "kill_addr", "kill_spawn"}
+IsKill == St \in {"kill_hdr", "kill_self", "kill_addr", "kill_spawn", "kill_window"}
+SrvDead == IsKill /\ sv = "gone"
 
 Init == /\ scn \in Scenarios
         /\ ppc = IF scn.kind = "remote" THEN "connect" ELSE "spawn"
         /\ fpc = "idle" /\ evt = FALSE /\ err = FALSE /\ sv = "listen" /\ sent = 0 /\ dconn = "open"
-        /\ addr = "none" /\ ctrl = "none" /\ info = "none" /\ gotInfo = FALSE /\ bk = "none" /\ ch = "none"
+        /\ addr = "none" /\ ctrl = "none" /\ info = "none" /\ gotInfo = FALSE /\ bk = "none" /\ bkp = FALSE /\ go = FALSE /\ ch = "none"
 
 (* ---- the constructor ---- *)
 PStep ==
@@ -57,7 +66,7 @@ PStep ==
                            /\ UNCHANGED fpc
        [] OTHER -> FALSE
   /\ ch' = IF ppc = "spawn" THEN "starting" ELSE ch
-  /\ UNCHANGED <<scn, evt, err, sv, sent, dconn, addr, ctrl, info, gotInfo, bk>>
+  /\ UNCHANGED <<scn, evt, err, sv, sent, dconn, addr, ctrl, info, gotInfo, bk, bkp, go>>
 
 (* ---- the frontend thread ---- *)
 Fail == IF "report" \in Fix THEN fpc' = "dead" /\ err' = TRUE /\ evt' = TRUE
@@ -75,55 +84,77 @@ FStep ==
        [] fpc = "info" -> \/ /\ info = "full" /\ gotInfo' = TRUE /\ fpc' = "set" /\ UNCHANGED <<err, evt, sent, ctrl>>
                           \/ /\ info # "full" /\ ctrl \in Ends /\ Fail /\ UNCHANGED <<sent, ctrl, gotInfo>>
        [] fpc = "set" -> evt' = TRUE /\ fpc' = "fetch" /\ UNCHANGED <<err, sent, ctrl, gotInfo>>
-  /\ UNCHANGED <<scn, ppc, sv, dconn, addr, info, bk, ch>>
+  /\ UNCHANGED <<scn, ppc, sv, dconn, addr, info, bk, bkp, go, ch>>
 
 (* ---- the server (environment) ---- *)
 Gone(how) == sv' = "gone" /\ dconn' = how
+NB == UNCHANGED <<bk, bkp, go>>
 SStep ==
   /\ scn.kind = "remote"
   /\ CASE sv = "listen" /\ sent >= 1 ->
-            IF St \in {"hdr", "kill_hdr"} THEN \E h \in Hows : Gone(h) /\ UNCHANGED <<addr, ctrl, info, bk>>
+            IF St \in {"hdr", "kill_hdr"} THEN \E h \in Hows : Gone(h) /\ UNCHANGED <<addr, ctrl, info>> /\ NB
             ELSE IF St = "unknown_ctx"
-                 THEN (IF "srvclose" \in Fix THEN Gone("fin") ELSE sv' = "silent" /\ UNCHANGED dconn) /\ UNCHANGED <<addr, ctrl, info, bk>>
-            ELSE sv' = "gotHdr" /\ UNCHANGED <<dconn, addr, ctrl, info, bk>>
+                 THEN (IF "srvclose" \in Fix THEN Gone("fin") ELSE sv' = "silent" /\ UNCHANGED dconn) /\ UNCHANGED <<addr, ctrl, info>> /\ NB
+            ELSE sv' = "gotHdr" /\ UNCHANGED <<dconn, addr, ctrl, info>> /\ NB
        [] sv = "gotHdr" /\ sent >= 2 ->
-            IF St \in {"self", "kill_self"} THEN \E h \in Hows : Gone(h) /\ UNCHANGED <<addr, ctrl, info, bk>>
-            ELSE sv' = "gotSelf" /\ UNCHANGED <<dconn, addr, ctrl, info, bk>>
+            IF St \in {"self", "kill_self"} THEN \E h \in Hows : Gone(h) /\ UNCHANGED <<addr, ctrl, info>> /\ NB
+            ELSE sv' = "gotSelf" /\ UNCHANGED <<dconn, addr, ctrl, info>> /\ NB
        [] sv = "gotSelf" ->                              \* send the control address on the data socket
             IF St \in {"addr0", "addrM", "addrL"}
-            THEN \E h \in Hows : addr' = (IF St = "addr0" THEN "none" ELSE "part") /\ Gone(h) /\ UNCHANGED <<ctrl, info, bk>>
-            ELSE IF St = "conn" THEN addr' = "full" /\ sv' = "noListener" /\ UNCHANGED <<dconn, ctrl, info, bk>>
-            ELSE IF St = "kill_addr" THEN \E h \in Hows : addr' = "full" /\ Gone(h) /\ UNCHANGED <<ctrl, info, bk>>
-            ELSE addr' = "full" /\ sv' = "sentAddr" /\ UNCHANGED <<dconn, ctrl, info, bk>>
-       [] sv = "sentAddr" /\ ctrl = "open" ->            \* accept; spawn the backend
-            sv' = "accepted" /\ bk' = "alive" /\ UNCHANGED <<dconn, addr, ctrl, info>>
-       [] sv = "accepted" ->                             \* runtime info on the control socket
-            IF St \in {"info0", "infoM", "infoL"}
-            THEN \E h \in Hows : /\ info' = (IF St = "info0" THEN "none" ELSE "part") /\ ctrl' = h /\ sv' = "gone"
-                                  /\ UNCHANGED <<dconn, addr, bk>>
-            ELSE IF St = "kill_spawn" THEN \E h \in Hows : ctrl' = h /\ Gone(h) /\ UNCHANGED <<addr, info, bk>>
-            ELSE info' = "full" /\ sv' = "sentInfo" /\ UNCHANGED <<dconn, addr, ctrl, bk>>
+            THEN \E h \in Hows : addr' = (IF St = "addr0" THEN "none" ELSE "part") /\ Gone(h) /\ UNCHANGED <<ctrl, info>> /\ NB
+            ELSE IF St = "conn" THEN addr' = "full" /\ sv' = "noListener" /\ UNCHANGED <<dconn, ctrl, info>> /\ NB
+            ELSE IF St = "kill_addr" THEN \E h \in Hows : addr' = "full" /\ Gone(h) /\ UNCHANGED <<ctrl, info>> /\ NB
+            ELSE addr' = "full" /\ sv' = "sentAddr" /\ UNCHANGED <<dconn, ctrl, info>> /\ NB
+       [] sv = "sentAddr" /\ ctrl = "open" ->            \* accept; create the start-up pipe; spawn the backend (it inherits both pipe
+            /\ sv' = "accepted" /\ bk' = "boot" /\ bkp' = TRUE    \* ends and the data and control sockets)
+            /\ UNCHANGED <<dconn, addr, ctrl, info, go>>
+       [] sv = "accepted" /\ St \in {"info0", "infoM", "infoL"} ->      \* (scripted server) runtime info cut on the control socket
+            \E h \in Hows : /\ info' = (IF St = "info0" THEN "none" ELSE "part") /\ ctrl' = h /\ sv' = "gone"
+                             /\ UNCHANGED <<dconn, addr>> /\ NB
+       [] sv = "accepted" /\ St = "kill_spawn" /\ bk = "boot" ->       \* killed before the backend has unpickled its worker: the
+            \E h \in Hows : ctrl' = h /\ Gone(h) /\ bk' = "gone" /\ UNCHANGED <<addr, info, bkp, go>>     \* bootstrap fails, the backend exits
+       [] sv = "accepted" /\ St = "kill_window" /\ bk \in {"main", "waitgo"} ->    \* killed between "backend started" and "go-ahead sent":
+            sv' = "gone" /\ UNCHANGED <<dconn, addr, ctrl, info>> /\ NB            \* the client's sockets stay open - the backend holds copies
+       [] sv = "accepted" /\ bk = "waitgo" /\ St \notin {"kill_spawn", "kill_window", "info0", "infoM", "infoL"} ->
+            \* runtime info received on the start-up pipe: forward it on the control socket, send the go-ahead
+            info' = "full" /\ go' = TRUE /\ sv' = "sentInfo" /\ UNCHANGED <<dconn, addr, ctrl, bk, bkp>>
        [] OTHER -> FALSE
   /\ UNCHANGED <<scn, ppc, fpc, evt, err, sent, gotInfo, ch>>
-\* an orphaned backend notices that its server is gone and exits
-Orphan == /\ bk = "alive" /\ sv = "gone" /\ IsKill
-          /\ bk' = "gone"
-          /\ UNCHANGED <<scn, ppc, fpc, evt, err, sv, sent, dconn, addr, ctrl, info, gotInfo, ch>>
+
+(* ---- the backend process (remote.py: _run_backend up to the go-ahead) ---- *)
+\* EOF / EPIPE on the start-up pipe needs EVERY copy of the server's end to be closed: the server's (it is dead) and the
+\* backend's own inherited copy.  The code closes that copy right after starting its control thread (remote.py:607);
+\* LateClose = TRUE is the variant that closes it only after the go-ahead has arrived.
+PipeDead == SrvDead /\ ~bkp
+BStep ==
+  /\ scn.kind = "remote" /\ St \notin {"info0", "infoM", "infoL"}
+  /\ CASE bk = "boot" /\ St # "kill_spawn" -> bk' = "main" /\ bkp' = LateClose /\ UNCHANGED go
+       [] bk = "main" -> (IF PipeDead THEN bk' = "gone" ELSE bk' = "waitgo") /\ UNCHANGED <<bkp, go>>      \* send runtime info (BrokenPipeError -> exits)
+       [] bk = "waitgo" /\ go -> bk' = "run" /\ bkp' = FALSE /\ UNCHANGED go
+       [] bk = "waitgo" /\ ~go /\ PipeDead -> bk' = "gone" /\ UNCHANGED <<bkp, go>>                        \* EOFError -> result (False, e) -> exits
+       [] OTHER -> FALSE
+  /\ UNCHANGED <<scn, ppc, fpc, evt, err, sv, sent, dconn, addr, ctrl, info, gotInfo, ch>>
+\* the last holder of the data and control sockets is gone: the client sees the end of both connections
+SockEOF ==
+  /\ St = "kill_window" /\ SrvDead /\ bk = "gone" /\ ctrl = "open"
+  /\ \E h \in Hows : ctrl' = h /\ dconn' = h
+  /\ UNCHANGED <<scn, ppc, fpc, evt, err, sv, sent, addr, info, gotInfo, bk, bkp, go, ch>>
 
 (* ---- the child process (process kind) ---- *)
 CStep == /\ scn.kind = "process" /\ ch = "starting"
          /\ ch' = IF St = "exit_early" THEN "exited" ELSE "reported"
-         /\ UNCHANGED <<scn, ppc, fpc, evt, err, sv, sent, dconn, addr, ctrl, info, gotInfo, bk>>
+         /\ UNCHANGED <<scn, ppc, fpc, evt, err, sv, sent, dconn, addr, ctrl, info, gotInfo, bk, bkp, go>>
 
-Next == PStep \/ FStep \/ SStep \/ Orphan \/ CStep
-Spec == Init /\ [][Next]_vars /\ WF_vars(PStep) /\ WF_vars(FStep) /\ WF_vars(SStep) /\ WF_vars(Orphan) /\ WF_vars(CStep)
+Next == PStep \/ FStep \/ SStep \/ BStep \/ SockEOF \/ CStep
+Spec == Init /\ [][Next]_vars /\ WF_vars(PStep) /\ WF_vars(FStep) /\ WF_vars(SStep) /\ WF_vars(BStep) /\ WF_vars(SockEOF) /\ WF_vars(CStep)
 
 Done == ppc \in {"returned", "raised"}
-Settled == ~(bk = "alive" /\ sv = "gone" /\ IsKill)
+Orphaned == SrvDead /\ bk \in {"boot", "main", "waitgo", "run"}
+Settled == ~(SrvDead /\ ENABLED BStep)
 Rec == [scn |-> scn,
         obs |-> [outcome |-> IF Done THEN ppc ELSE "hung",
                  id_ok |-> IF ppc # "returned" THEN "na" ELSE IF (scn.kind = "remote" /\ gotInfo) \/ (scn.kind = "process" /\ ch = "reported") THEN "T" ELSE "F",
-                 leftover |-> IF (scn.kind = "process" /\ ch \in {"starting", "reported"}) \/ (scn.kind = "remote" /\ bk = "alive" /\ sv = "gone" /\ IsKill) THEN 1 ELSE 0]]
+                 leftover |-> IF (scn.kind = "process" /\ ch \in {"starting", "reported"}) \/ (scn.kind = "remote" /\ Orphaned) THEN 1 ELSE 0]]
 
 Live_Returns   == <>Done
 Inv_Usable     == Done => C20_Usable(Rec)
@@ -135,7 +166,8 @@ TypeOK == /\ sent \in 0..2 /\ dconn \in {"open", "fin", "rst"} /\ addr \in {"non
 W_Returned == ~(ppc = "returned")
 W_Raised   == ~(ppc = "raised" /\ scn.kind = "remote" /\ St # "refuse_data")
 W_FDead    == ~(fpc = "dead")
-W_Orphan   == ~(bk = "alive" /\ sv = "gone" /\ IsKill)
+W_Orphan   == ~Orphaned
+W_WindowEOF == ~(St = "kill_window" /\ ppc = "raised")
 
 \* ---- every scenario with every outcome (terminal states), for replay and conformance ----
 Quiet == ~ENABLED Next
